@@ -288,13 +288,23 @@ impl<H: MsgHeader> Endpoint<H> {
     /// * - SocketError: other socket related errors.
     pub fn recv_data(&mut self, len: usize) -> Result<(usize, Vec<u8>)> {
         let mut rbuf = vec![0u8; len];
-        let mut iovs = [iovec {
-            iov_base: rbuf.as_mut_ptr() as *mut c_void,
-            iov_len: len,
-        }];
-        // SAFETY: Safe because we own rbuf and it's safe to fill a byte array with arbitrary data.
-        let (bytes, _) = unsafe { self.sock.recv_with_fds(&mut iovs, &mut [])? };
-        Ok((bytes, rbuf))
+        let mut received = 0;
+        // The socket is a byte stream: the peer's message may arrive in several segments, so keep
+        // reading until `len` bytes have been received or the peer closes the connection.
+        while received < len {
+            let mut iovs = [iovec {
+                // SAFETY: `received` is smaller than the length of rbuf.
+                iov_base: unsafe { rbuf.as_mut_ptr().add(received) } as *mut c_void,
+                iov_len: len - received,
+            }];
+            // SAFETY: Safe because we own rbuf and it's safe to fill a byte array with arbitrary data.
+            let (bytes, _) = unsafe { self.sock.recv_with_fds(&mut iovs, &mut [])? };
+            if bytes == 0 {
+                break;
+            }
+            received += bytes;
+        }
+        Ok((received, rbuf))
     }
 
     /// Reads bytes from the socket into the given scatter/gather vectors with optional attached
